@@ -1045,6 +1045,8 @@ func runC11R2(c *Ctx, r *Rep) {
 							r.ok(key, call.Pos(), "(c) unreachable: %s", w)
 						} else if reason, ok := confirmedUnreachable[fmt.Sprintf("%s|%s|%s", rel, id, label)]; ok {
 							r.okTrivial(key, call.Pos(), "(c) confirmed unreachable: %s", reason)
+						} else if reason := assembledPanic(rel, id, label); reason != "" {
+							r.okTrivial(key, call.Pos(), "(c) confirmed unreachable (message assembled from the reviewed literal): %s", reason)
 						} else if from, reason := movedPanic(c, p, rel, fd, label); from != "" {
 							r.okTrivial(key, call.Pos(), "(c) confirmed unreachable in %s, from which this helper was extracted: %s", from, reason)
 						} else {
@@ -1420,4 +1422,27 @@ func runC11R8(c *Ctx, r *Rep) {
 			}
 		}
 	}
+}
+
+// assembledPanic: a panic of the same function whose message is assembled from a literal and a variable part
+// ("NameOp: param invalid for " + kind + " variable") stands for the reviewed messages of that function that begin
+// with the literal — the condition under which it is reached is the same, only the wording is computed.
+func assembledPanic(rel, id, label string) string {
+	i := strings.Index(label, `" + `)
+	if i <= 0 || !strings.HasPrefix(label, `"`) {
+		return ""
+	}
+	lit := label[:i]
+	prefix := rel + "|" + id + "|"
+	var keys []string
+	for k := range confirmedUnreachable {
+		if strings.HasPrefix(k, prefix) && strings.HasPrefix(k[len(prefix):], lit) {
+			keys = append(keys, k)
+		}
+	}
+	if len(keys) == 0 {
+		return ""
+	}
+	sort.Strings(keys)
+	return confirmedUnreachable[keys[0]]
 }
